@@ -207,7 +207,18 @@ def _exec(sched, lname, kind, unit):
                 if lname == 'l_w':
                     col = (GREYS[s['c']],) * 3      # a one-channel light is driven with shades of white
                 key = 'k%d' % s['k']
-                light.color(list(col), fade_ms=s['f'] * unit, priority=s['p'], key=key)
+                # the same request through the three entry points: off() for black, on() / on(brightness) for white and
+                # greys (every second time), color() otherwise
+                kw = dict(fade_ms=s['f'] * unit, priority=s['p'], key=key)
+                grey = col[0] == col[1] == col[2]
+                if grey and col[0] == 0 and len(lines) % 2 == 0:
+                    light.off(**kw)
+                elif grey and col[0] == 255 and len(lines) % 2 == 0:
+                    light.on(**kw)
+                elif grey and col[0] > 0 and len(lines) % 2 == 0:
+                    light.on(brightness=col[0], **kw)
+                else:
+                    light.color(list(col), **kw)
                 lines.append({'op': op, 'c': list(col), 'f': s['f'], 'p': s['p'], 'k': s['k'], 'sc': entry_sc(key), 'lg': logical()})
             elif op == 'remove':
                 key = 'k%d' % s['k']
